@@ -3,6 +3,7 @@
 package consul
 
 import (
+	"bytes"
 	"encoding/json"
 	"fmt"
 	"net/http"
@@ -16,6 +17,7 @@ import (
 	"github.com/hashicorp/consul/api"
 
 	"github.com/fabiolb/fabio/config"
+	"github.com/fabiolb/fabio/route"
 	"github.com/fabiolb/fabio/zzverif/ev"
 )
 
@@ -24,15 +26,16 @@ import (
 
 func TestVerifC01Config(t *testing.T) {
 	L := ev.Begin("C01", "c01-config", "exploration",
-		"every set of 1..3 instances of one service drawn from nodes {a, a.b, n1} x service ids {b.c, c, s1} (names with dots in both places: a + b.c and a.b + c read the same when joined by a dot; the same id on two nodes; two ids on one node; the s1 instances write their routing tag with a blank in front), every assignment of {passing, critical} to their checks, through the real checksWithTagPrefix -> passingServices -> ServiceMonitor.makeConfig with the catalog answered by an in-process fake Consul; oracle: the targets of the generated route commands are exactly the addresses of the instances whose check passes. non-trivial = sets with both a passing and a failing instance")
+		"every set of 1..3 instances of one service drawn from nodes {a, a.b, n1} x service ids {b.c, c, s1} (names with dots in both places: a + b.c and a.b + c read the same when joined by a dot; the same id on two nodes; two ids on one node; the s1 instances write their routing tag with a blank in front), every assignment of {passing, critical} to their checks, through the real checksWithTagPrefix -> passingServices -> ServiceMonitor.makeConfig with the catalog answered by an in-process fake Consul; oracle: the targets of the generated route commands are exactly the addresses of the instances whose check passes; plus two services advertising one prefix with an instance of each on the same address and port, every pass/fail assignment, the configuration built into a table: one target per healthy instance under its own service name. non-trivial = sets with both a passing and a failing instance")
 	type inst struct {
 		node, id, addr string
 		port           int
+		svc            string // "" = web
 	}
 	var all []inst
 	for ni, n := range []string{"a", "a.b", "n1"} {
 		for ii, id := range []string{"b.c", "c", "s1"} {
-			all = append(all, inst{n, id, fmt.Sprintf("10.0.%d.%d", ni+1, ii+1), 8000 + ni*10 + ii})
+			all = append(all, inst{n, id, fmt.Sprintf("10.0.%d.%d", ni+1, ii+1), 8000 + ni*10 + ii, ""})
 		}
 	}
 	// the instances with id s1 write their routing tag with a blank in front (tags are trimmed when the route
@@ -48,13 +51,16 @@ func TestVerifC01Config(t *testing.T) {
 	srv := httptest.NewServer(http.HandlerFunc(func(w http.ResponseWriter, r *http.Request) {
 		mu.Lock()
 		defer mu.Unlock()
-		if r.URL.Path != "/v1/catalog/service/web" {
+		if !strings.HasPrefix(r.URL.Path, "/v1/catalog/service/") {
 			http.Error(w, "unexpected "+r.URL.Path, 404)
 			return
 		}
-		var out []map[string]interface{}
+		name := strings.TrimPrefix(r.URL.Path, "/v1/catalog/service/")
+		out := []map[string]interface{}{}
 		for _, in := range catalog {
-			out = append(out, map[string]interface{}{"Node": in.node, "Address": in.addr, "ServiceID": in.id, "ServiceName": "web", "ServiceAddress": "", "ServicePort": in.port, "ServiceTags": []string{tagOf(in)}})
+			if in.svc == name || (in.svc == "" && name == "web") {
+				out = append(out, map[string]interface{}{"Node": in.node, "Address": in.addr, "ServiceID": in.id, "ServiceName": name, "ServiceAddress": "", "ServicePort": in.port, "ServiceTags": []string{tagOf(in)}})
+			}
 		}
 		w.Header().Set("X-Consul-Index", "7")
 		json.NewEncoder(w).Encode(out)
@@ -128,6 +134,51 @@ func TestVerifC01Config(t *testing.T) {
 			if len(set) == 3 && mask == 5 && set[0] == 0 && set[1] == 4 {
 				L.Sample(map[string]interface{}{"instances": desc, "routed": got})
 			}
+		}
+	}
+	// two services that advertise the same prefix, one instance of each on the SAME address and port (a canary name for
+	// the process behind "web", a service registered under an old and a new name): every healthy instance of every
+	// service is a target of its own, under its own service name, in the table built from the configuration
+	shared := []inst{{"n1", "w1", "10.0.9.1", 8080, "web"}, {"n1", "c1", "10.0.9.1", 8080, "web-canary"}, {"n2", "c2", "10.0.9.2", 8080, "web-canary"}}
+	for mask := 0; mask < 1<<len(shared); mask++ {
+		var checks api.HealthChecks
+		want := map[string]bool{}
+		var desc []string
+		mu.Lock()
+		catalog = shared
+		mu.Unlock()
+		for k, in := range shared {
+			st := "critical"
+			if mask&(1<<k) != 0 {
+				st = "passing"
+				want[fmt.Sprintf("%s http://%s:%d/", in.svc, in.addr, in.port)] = true
+			}
+			desc = append(desc, fmt.Sprintf("service %s node %q id %q %s -> %s:%d", in.svc, in.node, in.id, st, in.addr, in.port))
+			checks = append(checks, &api.HealthCheck{Node: in.node, CheckID: "service:" + in.id, Status: st, ServiceID: in.id, ServiceName: in.svc, ServiceTags: []string{"urlprefix-/web"}})
+		}
+		got := map[string]bool{}
+		var text, berr string
+		msg, _, pan := ev.Guard(func() {
+			text = mon.makeConfig(passingServices(checksWithTagPrefix("urlprefix-", checks), []string{"passing"}, false))
+			tbl, err := route.NewTable(bytes.NewBufferString(text))
+			if err != nil {
+				berr = err.Error()
+				return
+			}
+			for _, r := range tbl[""] {
+				for _, tg := range r.Targets {
+					got[tg.Service+" "+tg.URL.String()] = true
+				}
+			}
+		})
+		L.Case()
+		L.NontrivialKey(fmt.Sprint("shared", mask))
+		if pan || berr != "" || fmt.Sprint(got) != fmt.Sprint(want) {
+			kind := "healthy-instance-missing"
+			if len(got) > len(want) {
+				kind = "unhealthy-instance-routed"
+			}
+			L.Violation(kind+"/table-of-two-services-sharing-an-endpoint", map[string]interface{}{"instances": desc, "targets_in_the_table": fmt.Sprint(got), "want": fmt.Sprint(want), "config": text, "panic": msg, "error": berr})
 		}
 	}
 	L.End(true)
